@@ -1209,10 +1209,10 @@ def replay(ctx, payload):
             if inp.get('fn') == 'expectation':
                 o1, o2 = np.array(inp['one_body']), np.array(inp['two_body'])
                 op = of.InteractionOperator(inp['constant'], o1.copy(), o2.copy())
-                e1 = complex(of.InteractionRDM(d['opdm'].copy(), d['tpdm'].copy()).expectation(op))
+                ev1 = complex(of.InteractionRDM(d['opdm'].copy(), d['tpdm'].copy()).expectation(op))
                 Hd = inp['constant'] * np.eye(2 ** n, dtype=complex) + dense_one(o1) + dense_two(o2)
                 ref = np.vdot(psi, Hd @ psi)
-                ok = abs(e1 - ref) <= TOL * max(1.0, abs(ref))
+                ok = abs(ev1 - ref) <= TOL * max(1.0, abs(ref))
                 if n <= 3:
                     herm = of.InteractionOperator(inp['constant'], (o1 + o1.T) / 2, (o2 + o2.transpose(3, 2, 1, 0)) / 2)
                     e2 = complex(of.InteractionRDM(d['opdm'].copy(), d['tpdm'].copy()).expectation(of.jordan_wigner(herm)))
